@@ -4,6 +4,13 @@
 -/
 import LccModel.Proto
 import LccModel.Model.MatcherJson
+import LccModel.Model.MatcherIsJsonJson
 open LccModel LccModel.Proto
 
-def main : IO Unit := loop (wrap LccModel.MatcherJson.handle)
+/-- `{jm, value}` = stream `C16.json` (`is_json` and its combinations); everything else = `C16.match` / `C16.ops` -/
+def handle (j : Lean.Json) : Except String Lean.Json :=
+  match j.getObjVal? "jm" with
+  | .ok _ => LccModel.MatcherIsJsonJson.handle j
+  | .error _ => LccModel.MatcherJson.handle j
+
+def main : IO Unit := loop (wrap handle)
